@@ -144,13 +144,6 @@ theorem buildLayers_cfg (c c' : Cfg) (k : Backing) (width : Nat) (fuel : Nat) :
     unfold WM.buildLayers
     simp only [Lay_build_cfg c c' k _ (BV.fromBits_spec _).1, ih]
 
-theorem foldl_max_le_sum : ∀ (l : List Nat) (a : Nat), l.foldl max a ≤ a + l.sum
-  | [], a => by simp
-  | x :: xs, a => by
-    simp only [List.foldl_cons, List.sum_cons]
-    have := foldl_max_le_sum xs (max a x)
-    omega
-
 /-- `WaveletMatrix::new` for every backing, when the alphabet size `max + 1` fits a `usize` -/
 theorem WM_new_cfg (c c' : Cfg) (k : Backing) (s : List Nat) (hmax : s.foldl max 0 + 1 < 2^64) :
     WM.new c k s = WM.new c' k s := by
